@@ -93,10 +93,20 @@ def install():
 
     def GetBestItem(self):
         res = q_best(self)
-        if ENABLED and hasattr(self, "_v_shadow"):
-            _count("hook_queue_pops")
+        if ENABLED and hasattr(self, "_v_shadow") and not getattr(self, "_v_unobservable", False):
             item, key = res
             sh = self._v_shadow
+            try:
+                in_sync = self.GetLen() + 1 == len(sh)
+            except Exception:
+                in_sync = True
+            if not in_sync:
+                # entries reached or left the real queue without passing through Insert / GetBestItem / Clear (an implementation may
+                # fill it in bulk): the shadow does not describe this queue, nothing is asserted about it any more
+                self._v_unobservable = True
+                _count("hook_queues_not_observable_through_the_public_methods")
+                return res
+            _count("hook_queue_pops")
             if not sh:
                 _v({"mech": "containers:hook:pop-from-queue-the-shadow-holds-empty", "key": float(key)})
             else:
@@ -120,6 +130,7 @@ def install():
         if hasattr(self, "_v_shadow"):
             del self._v_shadow[:]
             self._v_ambiguous = False
+            self._v_unobservable = False
             if ENABLED:
                 _count("hook_queue_clears")
         return r
